@@ -762,3 +762,59 @@ Proof.
     + injection Ha as <-. exact IHa.
     + apply IHr. exact Ha.
 Qed.
+
+(* ---- arr.add(name=value, ...) and histories of items ---- *)
+Lemma add_attrs_valid t b path st0 : legal t = true ->
+  valid t (fst st0) = true -> valid t (snd st0) = true ->
+  forall ks s r, valid t (fst s) = true -> valid t (snd s) = true ->
+  valid t (fst (fst (add_attrs t b path st0 s r ks))) = true /\ valid t (snd (fst (add_attrs t b path st0 s r ks))) = true.
+Proof.
+  intros Hl H0a H0b ks. induction ks as [|k kr IH]; intros s r Ha Hb; cbn [add_attrs]; [split; assumption|].
+  destruct (hstep t s (HOp b path k)) as [s2 r2] eqn:E.
+  pose proof (hstep_valid t s (HOp b path k) Hl Ha Hb) as [V1 V2]. rewrite E in V1, V2. cbn [fst] in V1, V2.
+  destruct r2; try (cbn [fst]; split; assumption). apply IH; assumption.
+Qed.
+
+Lemma add_attrs_rejected t b path st0 : forall ks s r,
+  (forall nv, r = ADone nv -> True) ->
+  (forall nv, snd (add_attrs t b path st0 s r ks) <> ADone nv) -> ks <> [] -> fst (add_attrs t b path st0 s r ks) = st0.
+Proof.
+  induction ks as [|k kr IH]; intros s r _ Hrej Hne; [congruence|]. cbn [add_attrs] in *.
+  destruct (hstep t s (HOp b path k)) as [s2 r2] eqn:E.
+  destruct r2 as [nv| |]; try reflexivity.
+  destruct kr as [|k' kr']; [exfalso; cbn [add_attrs snd] in Hrej; apply (Hrej nv); reflexivity|].
+  apply IH; [trivial|exact Hrej|discriminate].
+Qed.
+
+Lemma hitem_step_valid t st it : legal t = true -> valid t (fst st) = true -> valid t (snd st) = true ->
+  valid t (fst (fst (hitem_step t st it))) = true /\ valid t (snd (fst (hitem_step t st it))) = true.
+Proof.
+  intros Hl Ha Hb. destruct it as [h|b path i attrs]; cbn [hitem_step]; [apply hstep_valid; assumption|].
+  destruct (hstep t st (HOp b path (AAdd i))) as [st1 r1] eqn:E.
+  pose proof (hstep_valid t st (HOp b path (AAdd i)) Hl Ha Hb) as [V1 V2]. rewrite E in V1, V2. cbn [fst] in V1, V2.
+  destruct r1; try (cbn [fst]; split; assumption). apply add_attrs_valid; assumption.
+Qed.
+
+Theorem items_reachable_valid t hs : legal t = true ->
+  valid t (fst (run_items t hs (default t, default t))) = true /\
+  valid t (snd (run_items t hs (default t, default t))) = true.
+Proof.
+  intros Hl. unfold run_items. assert (H0 : valid t (default t) = true) by (apply default_valid; exact Hl).
+  assert (G : forall st, valid t (fst st) = true -> valid t (snd st) = true ->
+              valid t (fst (fold_left (fun s h => fst (hitem_step t s h)) hs st)) = true /\
+              valid t (snd (fold_left (fun s h => fst (hitem_step t s h)) hs st)) = true).
+  { induction hs as [|h r IH]; intros st Ha Hb; cbn [fold_left]; [split; assumption|].
+    destruct (hitem_step_valid t st h Hl Ha Hb) as [V1 V2]. apply IH; assumption. }
+  apply G; exact H0.
+Qed.
+
+(* add(name=value, ...) that is not performed leaves both messages as they were *)
+Theorem add_with_rejected_unchanged t st b path i attrs :
+  (forall nv, snd (hitem_step t st (HAddWith b path i attrs)) <> ADone nv) ->
+  fst (hitem_step t st (HAddWith b path i attrs)) = st.
+Proof.
+  cbn [hitem_step]. destruct (hstep t st (HOp b path (AAdd i))) as [st1 r1] eqn:E. intros Hrej.
+  destruct r1 as [nv| |]; try reflexivity.
+  destruct attrs as [|k kr]; [exfalso; cbn [add_attrs snd] in Hrej; apply (Hrej nv); reflexivity|].
+  apply add_attrs_rejected; [trivial|exact Hrej|discriminate].
+Qed.
